@@ -758,6 +758,41 @@ def gen_dbstruct(fields):
     return '\n'.join(out) + '\n'
 
 
+def gen_stub(unit, fn_name):
+    """A callee stub whose contract is, textually, the contract PROVED for that function in another unit:
+    the real signature + the @recv/@ret/@sig payload of its extract block + an external_body."""
+    tpath = os.path.join(VERIF, 'units', unit + '.rs')
+    if not os.path.exists(tpath):
+        raise Unsupported(f'@stub: unit {unit} does not exist')
+    text = open(tpath).read()
+    for m in EXTRACT_RE.finditer(text):
+        header, items = parse_block(m.group(1), 0)
+        parts = header.split()
+        if len(parts) >= 2 and parts[1] == fn_name:
+            rel = parts[0]
+            occ = int(parts[2][1:]) if len(parts) > 2 and parts[2].startswith('#') else 1
+            src = open(os.path.join(REPO, rel), encoding='utf-8').read()
+            start, end, bo, bc = find_fn(src, fn_name, occ)
+            ft = FnText(rel, src, start, end, bo, bc, fn_name)
+            sig_payload = ''
+            for d, arg, payload, ln in items:
+                if d == 'recv':
+                    ft.recv_mut()
+                elif d == 'ret':
+                    ft.name_ret(arg.strip())
+                elif d == 'sig':
+                    sig_payload = payload
+            # keep only the signature part
+            ft.edits = [e for e in ft.edits if e[1] <= ft.body_open]
+            ft.edits.append((ft.body_open, len(ft.text), '\n' + sig_payload.rstrip() + '\n{ unimplemented!() }\n', ('stub', unit)))
+            body = ''.join(p[0] for p in ft.render())
+            # drop doc comments / attributes in front: start at `pub`/`fn`
+            return (f'// ---- callee contract proved in unit {unit} (units/{unit}.rs): {rel} fn {fn_name}\n'
+                    '#[verifier::external_body]\n' + re.sub(r'^(\s*///[^\n]*\n|\s*#\[[^\n]*\]\n)*', '', body))
+    raise Unsupported(f'@stub: unit {unit} has no extract block for {fn_name}')
+
+
+STUB_RE = re.compile(r'^[ \t]*//@stub[ \t]+(\w+)[ \t]+(\w+)[ \t]*$', re.M)
 DBSTRUCT_RE = re.compile(r'^[ \t]*//@dbstruct[ \t]+(.*)$', re.M)
 EXTRACT_RE = re.compile(r'/\*@\s*extract\s+(.*?)@\*/', re.S)
 INCLUDE_RE = re.compile(r'^[ \t]*//@include[ \t]+(\S+)[ \t]*$', re.M)
@@ -786,6 +821,7 @@ def generate(tmpl_path, out_path):
     # includes first (they may not contain extract blocks with line-mapped origins we care about)
     text = expand_includes(raw)
     text = text.replace('"/repo/', '"' + REPO + '/')
+    text = STUB_RE.sub(lambda m: gen_stub(m.group(1), m.group(2)), text)
     text = DBSTRUCT_RE.sub(lambda m: '// T6: generated from src/fixtures/mod.rs\n' + gen_dbstruct(m.group(1).split()), text)
     pieces = []
     pos = 0
